@@ -247,6 +247,11 @@ pub fn run(case: &Value, ctx: &Ctx) -> Outcome {
             for k in 0..seeds {
                 let mut rng = StdRng::seed_from_u64(ctx.seed.wrapping_mul(1000003).wrapping_add(k) ^ sc.to_string().len() as u64);
                 let mut bytes = damage(&base, range, how, format == "bcf" || (format == "npy" && !matches!(field, "descr" | "fortran" | "shape" | "padding")), field.starts_with("l_") || field == "n_sample" || field == "header_len", &mut rng);
+                if format == "bcf" && field == "gt_type" && how == "bitflip" && k == 0 {
+                    // pinned instance of the known finding: GT declared as a float vector (type nibble 5)
+                    bytes = base.clone();
+                    bytes[range.0 + 2] = 0x25;
+                }
                 if format == "bcf" && k % 2 == 1 {
                     bytes = gen::bgzf_chunks(&bytes, 100);
                 }
